@@ -28,6 +28,10 @@ def run(ctx):
             K9 = [[("-9/8", "11/4"), ("-1", "17/4"), ("-7/8", "23/4")], [("-7/8", "23/4"), ("-3/4", "29/4"), ("-31/8", "55/8")], [("-31/8", "55/8"), ("-7", "13/2"), ("-13/2", "25/8")],
                   [("-13/2", "25/8"), ("-6", "-1/4"), ("-21/4", "3/8")], [("-21/4", "3/8"), ("-9/2", "1"), ("-23/8", "9/8")], [("-23/8", "9/8"), ("-5/4", "5/4"), ("-9/8", "11/4")]]
             ctrl = [[(F(x), F(y)) for x, y in c] for c in K9]
+        if it == 2:
+            # deterministic: a simple closed curve of two cubics whose handles overshoot so that the control legs cross - the CONTROL POLYGON winds the
+            # other way (shoelace area -3) while the curve itself is counter-clockwise (exact area +231/20)
+            ctrl = [[(F(-1), F(-4)), (F(5), F(2)), (F(3), F(-2)), (F(-2), F(5))], [(F(-2), F(5)), (F(-5), F(4)), (F(3), F(3)), (F(-1), F(-4))]]
         desc = {"ctrl": ctrl}
         ctx.sample(core.jsonable(desc), limit=2)
         curves = {}
@@ -39,6 +43,25 @@ def run(ctx):
             kv = pynurbs.GeneratorKnotVector.uniform(1, len(vs) + 1)
             full = pynurbs.Curve(kv, [Point2D(p) for p in vs + [vs[0]]])
             curves["full_curve"] = JordanCurve.from_full_curve(full)
+            # the same polygon as a DEGREE-ELEVATED quadratic spline (every side written with its midpoint as middle control point, as CAD exports do)
+            n_ = len(vs)
+            kv2 = [F(0)] * 3 + [F(k) for k in range(1, n_) for _ in (0, 1)] + [F(n_)] * 3
+            pts2 = []
+            for i_ in range(n_):
+                a_, b_ = vs[i_], vs[(i_ + 1) % n_]
+                pts2 += [a_, ((a_[0] + b_[0]) / 2, (a_[1] + b_[1]) / 2)]
+            pts2.append(vs[0])
+            full2 = pynurbs.Curve(kv2)
+            full2.ctrlpoints = [Point2D(p) for p in pts2]
+            curves["full_curve_elevated"] = JordanCurve.from_full_curve(full2)
+        elif mode == 1:
+            # the quadratic pieces as ONE quadratic spline with double interior knots
+            n_ = len(ctrl)
+            kv2 = [F(0)] * 3 + [F(k) for k in range(1, n_) for _ in (0, 1)] + [F(n_)] * 3
+            pts2 = [p for c in ctrl for p in c[:2]] + [ctrl[0][0]]
+            full2 = pynurbs.Curve(kv2)
+            full2.ctrlpoints = [Point2D(p) for p in pts2]
+            curves["full_curve"] = JordanCurve.from_full_curve(full2)
         ctx.case("constructors", (repr(ctrl), mode))
         ctx.count("mode:%d" % mode)
         names = list(curves)
@@ -57,7 +80,7 @@ def run(ctx):
             J = curves[nm]
             d2 = {**desc, "constructor": nm}
             got_v = [tuple(v) for v in J.vertices]
-            if nm == "full_curve":
+            if nm.startswith("full_curve"):
                 ok = len(got_v) == len(exp_vertices) and all(abs(float(a) - float(b)) < 1e-9 for g, e in zip(got_v, exp_vertices) for a, b in zip(g, e))
                 ctx.check(ok, "vertices of from_full_curve", d2, exp_vertices, got_v)
             else:
@@ -82,7 +105,7 @@ def run(ctx):
         else:
             cmp_curves = curves
         cref = cmp_curves[names[0]]
-        for nm in names[1:]:
+        for nm in [n_ for n_ in names[1:] if n_ in cmp_curves]:
             try:
                 with impl.time_limit(120):
                     same = cmp_curves[nm] == cref and cref == cmp_curves[nm]
